@@ -175,3 +175,45 @@ Definition zero_lit (t : ty) : option expr :=
   | TString => Some (ELit LString """""" TString)
   | _ => None
   end.
+
+(* ---------- unlambda (unlambda_checker.go): `func(x T) R { return C(x) }` => `C` ----------
+   The function literal evaluates the callee expression C each time it is CALLED; the replacement evaluates
+   it once, where the function value is DEFINED.  The callee forms and what evaluating them reads: *)
+Inductive callee :=
+| CPkgFunc (name : string)                          (* hi, strings.ToUpper: a declared function *)
+| CFuncVar (x : string)                             (* a func-typed local or package variable *)
+| CFuncField (o : string) (ptr : bool) (f : string) (* o.f with f a func-typed field; ptr: o is a pointer variable *)
+| CMethod (r : string) (ptr : bool) (m : string).   (* method value r.m; ptr: r is a pointer variable *)
+
+(* the part of the program state a callee expression can read *)
+Record lstore := {
+  fvar : string -> string;              (* the function a func-typed variable holds *)
+  ffield : string -> string -> string;  (* variable, field -> the function the field holds *)
+  rstate : string -> Z;                 (* the value of a struct variable *)
+  rptr : string -> N                    (* the object a pointer variable points to *)
+}.
+
+(* a function value: the code, and what a method value binds (a COPY of a struct receiver, or the pointee) *)
+Inductive fvalue := FPlain (fn : string) | FBoundCopy (m : string) (recv : Z) | FBoundPtr (m : string) (obj : N).
+
+Definition callee_eval (st : lstore) (c : callee) : fvalue :=
+  match c with
+  | CPkgFunc n => FPlain n
+  | CFuncVar x => FPlain (fvar st x)
+  | CFuncField o _ f => FPlain (ffield st o f)
+  | CMethod r false m => FBoundCopy m (rstate st r)
+  | CMethod r true m => FBoundPtr m (rptr st r)
+  end.
+
+(* the rewrite is behaviour-preserving iff the callee denotes the same function value whenever it is evaluated *)
+Definition callee_stable (c : callee) : Prop := forall st1 st2, callee_eval st1 c = callee_eval st2 c.
+
+(* unlambdaChecker's hasVars test: an identifier inside result.Fun that is a *types.Var whose type is not a
+   struct blocks the report (a func-typed field identifier is such a Var; a method name is not a Var) *)
+Definition unlambda_flags (c : callee) : bool :=
+  match c with
+  | CPkgFunc _ => true
+  | CFuncVar _ => false
+  | CFuncField _ _ _ => false
+  | CMethod _ ptr _ => negb ptr
+  end.
